@@ -268,7 +268,9 @@ impl RtWorld {
             body[0..4].copy_from_slice(b"BZh9");
             body[4..12].copy_from_slice(&(g as u64).to_be_bytes());
             body[12..16].copy_from_slice(&(seq as u32).to_be_bytes());
-            let mut v = (n as i32).to_be_bytes().to_vec();
+            // the archive format prescribes a negative size for the last record of a volume
+            let size = if seq == CHUNKS_PER_VOLUME || r.below(8) == 0 { -(n as i32) } else { n as i32 };
+            let mut v = size.to_be_bytes().to_vec();
             v.extend_from_slice(&body);
             v
         };
